@@ -150,8 +150,16 @@ Qed.
 
 (* ------------------------------------------------------------------ the stack *)
 Lemma fs_list_result S d pat loc s a : fs_addr S d loc = FOk (s, a) ->
-  fs_list S d pat loc = FOk (sort_dedup (map render_path (flat_map (fun L => l_list L a pat) (layers S)))).
+  fs_list S d pat loc =
+    if wf_pattern pat then FOk (sort_dedup (map render_path (flat_map (fun L => l_list L a pat) (layers S))))
+    else FErr EUnmodelled.
 Proof. intros H. unfold fs_list. rewrite H. reflexivity. Qed.
+(* a listing that returns Ok was asked with a pattern inside the modelled family *)
+Lemma fs_list_ok_pattern S d pat loc l : fs_list S d pat loc = FOk l -> wf_pattern pat = true.
+Proof.
+  unfold fs_list. destruct (fs_addr S d loc) as [[s a]|e|k]; cbn [fbind]; try discriminate.
+  destruct (wf_pattern pat); [reflexivity | discriminate].
+Qed.
 Lemma fs_subdirs_result S d loc s a : fs_addr S d loc = FOk (s, a) ->
   fs_subdirectories S d loc = FOk (sort_dedup (map render_path (flat_map (fun L => l_subdirs L a) (layers S)))).
 Proof. intros H. unfold fs_subdirectories. rewrite H. reflexivity. Qed.
@@ -159,7 +167,7 @@ Proof. intros H. unfold fs_subdirectories. rewrite H. reflexivity. Qed.
 Theorem list_spec S d pat loc s a l : fs_addr S d loc = FOk (s, a) -> fs_list S d pat loc = FOk l ->
   forall x, In x l <-> exists L q, In L (layers S) /\ In q (l_list L a pat) /\ x = render_path q.
 Proof.
-  intros A H x. rewrite (fs_list_result S d pat loc s a A) in H. injection H as <-.
+  intros A H x. rewrite (fs_list_result S d pat loc s a A) in H. destruct (wf_pattern pat); [|discriminate]. injection H as <-.
   rewrite sort_dedup_In, in_map_iff. split.
   - intros (q & <- & Hq). apply in_flat_map in Hq. destruct Hq as (L & HL & Hq). eauto.
   - intros (L & q & HL & Hq & ->). exists q. split; [reflexivity|]. apply in_flat_map. eauto.
@@ -167,7 +175,7 @@ Qed.
 Theorem list_sorted S d pat loc l : fs_list S d pat loc = FOk l -> StronglySorted str_lt l.
 Proof.
   unfold fs_list. destruct (fs_addr S d loc) as [[s a]|e|k]; cbn [fbind]; try discriminate.
-  intros H. injection H as <-. apply sort_dedup_sorted.
+  destruct (wf_pattern pat); [|discriminate]. intros H. injection H as <-. apply sort_dedup_sorted.
 Qed.
 Theorem subdirs_spec S d loc s a l : fs_addr S d loc = FOk (s, a) -> fs_subdirectories S d loc = FOk l ->
   forall x, In x l <-> exists L q, In L (layers S) /\ In q (l_subdirs L a) /\ x = render_path q.
@@ -187,11 +195,11 @@ Lemma flat_map_nil {A B} (f : A -> list B) l : (forall x, In x l -> f x = []) ->
 Proof. induction l as [|x r IH]; intros H; cbn [flat_map]; [reflexivity|]. rewrite (H x) by (left; reflexivity). apply IH. intros; apply H; right; assumption. Qed.
 
 (* a directory present in no layer lists as empty *)
-Theorem missing_is_empty S d pat loc s a : fs_addr S d loc = FOk (s, a) ->
+Theorem missing_is_empty S d pat loc s a : wf_pattern pat = true -> fs_addr S d loc = FOk (s, a) ->
   (forall L, In L (layers S) -> l_is_dir L a = false) ->
   fs_list S d pat loc = FOk [] /\ fs_subdirectories S d loc = FOk [].
 Proof.
-  intros A H. rewrite (fs_list_result S d pat loc s a A), (fs_subdirs_result S d loc s a A).
+  intros WP A H. rewrite (fs_list_result S d pat loc s a A), (fs_subdirs_result S d loc s a A), WP.
   rewrite !flat_map_nil; [split; reflexivity | |].
   - intros L HL. unfold l_subdirs. rewrite (H L HL). reflexivity.
   - intros L HL. unfold l_list. rewrite (H L HL). reflexivity.
@@ -235,8 +243,21 @@ Theorem list_layer_order S S' d pat loc : conf S' = conf S -> lng S' = lng S ->
   (forall L, In L (layers S') <-> In L (layers S)) -> fs_list S' d pat loc = fs_list S d pat loc.
 Proof.
   intros E1 E2 HL. unfold fs_list. rewrite (fs_addr_state S S' d loc E1 E2).
-  destruct (fs_addr S d loc) as [[s a]|e|k]; cbn [fbind]; try reflexivity. f_equal.
+  destruct (fs_addr S d loc) as [[s a]|e|k]; cbn [fbind]; try reflexivity. destruct (wf_pattern pat); [|reflexivity]. f_equal.
   apply sorted_unique; try apply sort_dedup_sorted. intros x. rewrite !sort_dedup_In, !in_map_iff.
   split; intros (q & <- & Hq); exists q; (split; [reflexivity|]); apply in_flat_map in Hq; destruct Hq as (L & HL' & Hq);
     apply in_flat_map; exists L; (split; [apply HL; exact HL' | exact Hq]).
+Qed.
+
+(* ------------------------------------------------------------------ the modelled pattern arguments *)
+Definition glob_literal (s : str) : Prop := forall c, In c s -> ~ In c glob_special.
+
+Lemma plain_pattern_arg_spec s : plain_pattern_arg s = true <-> glob_literal s.
+Proof.
+  unfold plain_pattern_arg, glob_literal. rewrite forallb_forall. split; intros H c Hc.
+  - specialize (H c Hc). apply negb_true_iff in H. intros Hin.
+    assert (X : existsb (N.eqb c) glob_special = true); [|congruence].
+    apply existsb_exists. exists c. split; [exact Hin | apply N.eqb_refl].
+  - apply negb_true_iff. destruct (existsb (N.eqb c) glob_special) eqn:E; [|reflexivity].
+    apply existsb_exists in E. destruct E as (x & Hx & Ex). apply N.eqb_eq in Ex. subst x. exfalso. exact (H c Hc Hx).
 Qed.
